@@ -40,7 +40,7 @@ class Sort:
     name: str = ""
 
     def __str__(self) -> str:
-        if self.kind in ("int", "bool", "real", "none", "str", "any"):
+        if self.kind in ("int", "bool", "real", "none", "str", "any", "ostr"):
             return self.kind
         if self.kind == "list":
             return f"list[{self.args[0]}]"
@@ -56,6 +56,7 @@ BOOL = Sort("bool")
 REAL = Sort("real")
 NONE = Sort("none")
 STR = Sort("str")
+OSTR = Sort("ostr")  # strings of which only the identity matters (names, links): uninterpreted sort
 
 
 def LIST(t: Sort) -> Sort:
@@ -134,6 +135,10 @@ class SortUniverse:
             r = z3.RealSort()
         elif k == "none":
             r = self._unit()
+        elif k == "ostr":
+            if "ostr" not in self._opaque:
+                self._opaque["ostr"] = z3.DeclareSort("OStr")
+            r = self._opaque["ostr"]
         elif k == "str":
             r = self.seqdt(z3.IntSort())
         elif k == "list":
